@@ -831,7 +831,7 @@ where
             let rank_b = rank_path_off[level];
             let two_bits = ((repr >> shift as usize) & 3) as u8;
 
-            result = self.qvs[level].select(two_bits, rank_b + result)? - b;
+            result = self.qvs[level].select(two_bits, rank_b.checked_add(result)?)? - b;
             shift += 2;
         }
 
